@@ -927,12 +927,12 @@ class InspectFunction(object):
             return inner_intro
 
         # Normal function call.
-        # Just introspect the function call.
-        # For now, do not look carefully at the arguments, just parse the arguments of
-        # the functions.
-        # TODO: add more arguments if we can parse constant arguments
+        # Just introspect the function call, with the arguments of the call: the constant ones are bound
+        # to the parameters, the other ones make the binding depend on the context of the call.
+        # (Binding no argument at all would key the call by the defaults of its parameters.)
+        call_kwargs = OrderedDict([(n.arg, n.value) for n in node.keywords])
         arg_ctx = FunctionArgContext(
-            named_args=get_arg_ctx_ast(caller_fun, [], OrderedDict()),
+            named_args=get_arg_ctx_ast(caller_fun, node.args, call_kwargs),  # type: ignore
             inner_call_key=context_sig,
         )
         new_call_stack = call_stack + [caller_fun_path]
